@@ -437,9 +437,39 @@ fn f_base128(n: u64) -> String {
     }
 }
 
+
+/// Line protocol on a private copy of stdout: library code under test prints diagnostics
+/// ("leaking memory block ...") with print!, which would otherwise interleave with the answers.
+fn serve_clean<F: FnMut(&[&str]) -> String>(mut f: F) {
+    use std::io::{BufRead, Write};
+    use std::os::unix::io::FromRawFd;
+    extern "C" {
+        fn dup(fd: i32) -> i32;
+        fn dup2(a: i32, b: i32) -> i32;
+        fn open(path: *const u8, flags: i32) -> i32;
+    }
+    let mut out = unsafe {
+        let keep = dup(1);
+        let null = open(b"/dev/null\0".as_ptr(), 1);
+        dup2(null, 1);
+        std::io::BufWriter::new(std::fs::File::from_raw_fd(keep))
+    };
+    let stdin = std::io::stdin();
+    for line in stdin.lock().lines() {
+        let line = line.unwrap();
+        let toks: Vec<&str> = line.split_whitespace().collect();
+        if toks.is_empty() {
+            continue;
+        }
+        let ans = f(&toks);
+        writeln!(out, "{}", ans).unwrap();
+    }
+    out.flush().unwrap();
+}
+
 fn main() {
     quiet_panics();
-    serve(|t| match t[0] {
+    serve_clean(|t| match t[0] {
         "E" => f_encode(t),
         "B" => match t.get(1).and_then(|x| x.parse::<u64>().ok()) {
             Some(n) => f_base128(n),
